@@ -217,16 +217,19 @@ CLAIMS = {
   design_ref="DESIGN.md section 6 (C08) and 10"),
  "C09": dict(
   category="proof",
-  text="Contract-based deductive proof over the real source of OverlapWindowPlugin._get_window_size (a number w gives (w, w); a pair is "
-       "used as (look-back, look-ahead) and neither part may be negative; anything else is refused) and of Chunk.split, the operation "
-       "that drops what was sent, withholds what is not final and caches inputs (an early split never moves later than requested, "
-       "halves adjacent, rows wholly on one side). That the concatenated output over every chunking equals the whole-run computation, "
-       "with contiguous and (multi-output) aligned chunks, is a bounded stand-in on the real OverlapWindowPlugin through the real "
-       "Plugin.iter.",
-  note="OverlapWindowPlugin.do_compute and cache_beyond (window arithmetic invalid_beyond / sent_until / cache_inputs_beyond over dicts "
-       "of cached chunks, retry loop) are not yet under contract - bounded stand-in only. Window-locality of the user's computation is "
-       "a premise.",
-  technique="contract-based deductive verification (2 functions) + bounded stand-in on the real OverlapWindowPlugin",
+  text="Contract-based deductive proof over the real source of OverlapWindowPlugin.do_compute (one input kind, one output; first and "
+       "later calls), modularly over the proved Chunk.split contract, for every input chunk, cached input and computation result: what "
+       "is sent starts where the previous call stopped sending, ends at the new sent_until where the withheld results start (these reach "
+       "to the end of the input), nothing beyond end - 2*look-ahead - 1 is sent, sent rows end by sent_until and withheld rows start at "
+       "or after it, sending only moves forward, and the input is cached from sent_until - 2*look-back - 1 on; "
+       "_get_window_size returns (w, w) for a number and the (non-negative) pair otherwise. That the concatenated output of a "
+       "window-local computation over every chunking equals the whole-run computation, with contiguous and (multi-output) aligned "
+       "chunks, is a bounded stand-in on the real OverlapWindowPlugin through the real Plugin.iter.",
+  note="Assumed at call sites: Chunk.concatenate of two adjacent chunks (bounded C07 stand-in), super().do_compute returns a "
+       "well-formed chunk over the inputs' interval (C08 / C12 contracts), integer windows. Not proved: the multi-output branch, "
+       "cache_beyond (retry loop), the final flush in iter, and the step from these invariants to 'equals the whole-run "
+       "computation' (needs the locality premise).",
+  technique="contract-based deductive verification (modular over the Chunk.split contract, per call variant) + bounded stand-in on the real OverlapWindowPlugin",
   design_ref="DESIGN.md section 6 (C09) and 10"),
  "C16": dict(
   category="proof",
